@@ -146,7 +146,17 @@ def gen_direct(rng) -> dict:
     return {"kind": "direct", "n_conn": n_conn, "ops": ops, "subs": gen_subs(rng, n_conn, used)}
 
 
-async def run_direct(case: dict, with_subs: bool) -> dict:
+async def run_direct_pair(case: dict):
+    """the case with and without its subscribers.  consume() on an empty queue is given up after 30 ms of REAL time (this check
+    runs on a real-time loop); synchronous subscribers run in executor threads, whose start can take longer than that on a
+    loaded machine: a pair that differs is run again with a whole second before it is judged"""
+    a, b = await run_direct(case, True), await run_direct(case, False)
+    if a["outcomes"] != b["outcomes"]:
+        a, b = await run_direct(case, True, 1.0), await run_direct(case, False, 1.0)
+    return a, b
+
+
+async def run_direct(case: dict, with_subs: bool, consume_timeout: float = 0.03) -> dict:
     from repid import Connection, InMemoryBucketBroker, InMemoryMessageBroker
     from repid.data._key import RoutingKey
     from repid.data._buckets import ArgsBucket
@@ -243,7 +253,7 @@ async def run_direct(case: dict, with_subs: bool) -> dict:
         n0 = len(log)
         try:
             if op == "consume":
-                r = await asyncio.wait_for(target(), 0.03)
+                r = await asyncio.wait_for(target(), consume_timeout)
                 log.append(("eff", OPC[op], o["conn"], codes.of(r)))
                 # the effect of consume is logged here (after its after-signal): moved in front of the after signals below
                 evs = log[n0:]
@@ -395,8 +405,9 @@ def run(ctx: Ctx) -> Result:
     async def main():
         asyncio.get_running_loop().set_exception_handler(lambda l, c: None)
         for c in directs:
-            out_d.append(await run_direct(c, True))
-            out_plain.append(await run_direct(c, False))
+            a, b = await run_direct_pair(c)
+            out_d.append(a)
+            out_plain.append(b)
         for c in deliveries:
             out_v.append((await run_delivery(c, True), await run_delivery(c, False)))
 
@@ -502,5 +513,9 @@ def replay(ctx: Ctx, rp: dict) -> dict:
     if case["kind"] == "delivery":
         r = asyncio.run(run_delivery(case, True))
         return {"log": [(e[0], e[1]) for e in r["log"]], "terminal": r["terminal"], "fails": True}
-    r = asyncio.run(run_direct(case, True))
-    return {"log": [tuple(e[:3]) if e[0] == "eff" else (e[0], e[1]) for e in r["log"]], "outcomes": r["outcomes"], "fails": True}
+    r, r0 = asyncio.run(run_direct_pair(case))
+    eff = [e for e in r["log"] if e[0] == "eff"]
+    eff0 = [e for e in r0["log"] if e[0] == "eff"]
+    return {"log": [tuple(e[:3]) if e[0] == "eff" else (e[0], e[1]) for e in r["log"]], "outcomes": r["outcomes"],
+            "outcomes_without_subscribers": r0["outcomes"],
+            "fails": r["outcomes"] != r0["outcomes"] or eff != eff0 or r["state"] != r0["state"]}
